@@ -330,10 +330,50 @@ def _solve(assertions):
             return "sat", s2.model()
     except z3.Z3Exception:
         pass
+    # sound for refutation: replace every nonlinear product / quotient by a fresh real (uninterpreted
+    # abstraction only drops constraints, so unsat of the abstraction implies unsat of the original)
+    try:
+        s4 = z3.SolverFor("QF_LRA")
+        s4.set("timeout", SOLVER_TIMEOUT_MS)
+        cache, fresh = {}, {}
+        s4.add(*[abstract_nonlinear(a, cache, fresh) for a in assertions])
+        if s4.check() == z3.unsat:
+            return "unsat", None
+    except z3.Z3Exception:
+        pass
     r3 = external_solve(s.to_smt2())
     if r3 == "unsat":
         return "unsat", None
     return "unknown", None
+
+
+def abstract_nonlinear(t, cache, fresh):
+    """copy of term t in which each maximal nonlinear monomial / quotient is a fresh Real constant
+    (identical subterms get the same constant)"""
+    key = t.get_id()
+    if key in cache:
+        return cache[key]
+    ch = t.children()
+    if not ch:
+        cache[key] = t
+        return t
+    nch = [abstract_nonlinear(c, cache, fresh) for c in ch]
+    k = t.decl().kind()
+    nonlin = False
+    if k == z3.Z3_OP_MUL:
+        nonlin = sum(0 if z3.is_rational_value(c) or z3.is_int_value(c) else 1 for c in nch) >= 2
+    elif k == z3.Z3_OP_DIV:
+        nonlin = not (z3.is_rational_value(nch[1]) or z3.is_int_value(nch[1]))
+    if nonlin:
+        r0 = t.decl()(*nch)
+        sk = str(z3.simplify(r0)) if len(str(r0)) < 4000 else r0.sexpr()
+        if sk not in fresh:
+            fresh[sk] = z3.Real("__nl%d" % len(fresh))
+        r = fresh[sk]
+    else:
+        r = t.decl()(*nch)
+    cache[key] = r
+    return r
 
 
 def external_solve(smt2, timeout_s=60):
